@@ -91,8 +91,9 @@ Fixpoint add_b (replace : bool) (m : bmatch) (l : list bmatch) : list bmatch :=
       if b_start m <? b_start x then m :: l          (* Err(index) => insert *)
       else if b_start m =? b_start x then
         match r with
-        | [] =>                                      (* same start as the LAST match: the end is overwritten *)
-            [if replace then ((if ml_tail_arm_moves_base then b_base m else b_base x), b_start x, b_end m) else x]
+        | [] =>                                      (* same start as the LAST match: replaced (GENERATED: only when longer) *)
+            [if replace && (if ml_tail_arm_only_if_longer then b_end x <? b_end m else true)
+             then ((if ml_tail_arm_moves_base then b_base m else b_base x), b_start x, b_end m) else x]
         | _ =>                                       (* found by the binary search: replaced when longer *)
             (if replace && (b_end x <? b_end m)
              then ((if ml_search_arm_moves_base then b_base m else b_base x), b_start x, b_end m) else x) :: r
